@@ -233,6 +233,20 @@ class Interp:
         if k == "pc":  # run the inner op in an already cancelled scope (engine C actors)
             self._sync(t, opid, "pc", [], objs["sc:" + t].cancel)
             return await self.run_op(t, op[1], opid)
+        if k == "dirty":
+            # run the inner op in a task that caught a native cancellation earlier and never
+            # called uncancel(): Task.cancelling() stays raised, nothing else is pending
+            task = asyncio.current_task()
+            task.cancel()
+            try:
+                await asyncio.sleep(0)
+            except CancelledError:
+                pass
+            self.w.ev("x", t, opid, "dirty", [], ["ok", task.cancelling()])
+            try:
+                return await self.run_op(t, op[1], opid)
+            finally:
+                task.uncancel()
         if k == "tg":
             return await self.op_tg(t, op, opid)
         if k == "spawn":
